@@ -388,7 +388,7 @@ theorem breaker_told (env : Env) (f : Faults) (b : Body) :
     · rw [ret_opened env f b ho]
       have ho' := (opened_iff env f).mp ho
       cases h : (runBody b).2 <;> cases hr : f.rollback <;> cases hq : f.rollbackPanics <;>
-        simp_all [endEvent, Err.of, acceptable, srcAcceptable, mem_badPrefix, Faults.commitOk, Faults.rollbackOk]
+        simp_all [endEvent, acceptable, srcAcceptable, mem_badPrefix, Faults.commitOk, Faults.rollbackOk]
   · have hb := breakerTold_ctx env f b
     unfold breakerTold at hb
     intro hret hm
@@ -476,6 +476,31 @@ example : transactCtx envOk { begin := true, commit := true, rollback := true }
     { stmts := [⟨.exec, false, true⟩, ⟨.rowq, false, true⟩, ⟨.exec, false, true⟩], fin := .ok }
     = { log := [.begin true, .exec 0 true, .query 1 true, .rollback true], runs := 1,
         body := .err (Err.of (.body .noRows)), ret := some (Err.of (.body .noRows)), mark := some true } := by decide
+
+/-! ### WithAcceptable options compose -/
+
+/-- **Every installed WithAcceptable function is consulted, none is dropped**: applying any number of
+`WithAcceptable` options in order to a connection leaves `accept` nil when there are none, and otherwise a
+function that answers `f1(err) || f2(err) || …` over all of them (and the function that was there before). -/
+theorem withAcceptable_composes (fs : List (Option Err → Bool)) (cur : AccFn) (e : Option Err) :
+    (fs.foldl withAcceptable cur).map (· e) =
+      match cur with
+      | none => if fs.isEmpty then none else some (fs.any (· e))
+      | some g => some (g e || fs.any (· e)) := by
+  induction fs generalizing cur with
+  | nil => cases cur <;> simp
+  | cons f fs ih =>
+    rw [List.foldl_cons, ih]
+    cases cur <;> simp [withAcceptable, Bool.or_assoc]
+
+/-- the model's user function of a configuration is that composition of the installed functions -/
+theorem uaFn_is_composition (ua : UA) (e : Option Err) :
+    (uaFn ua).map (· e) = (ua.installed.foldl withAcceptable none).map (· e) := by
+  obtain ⟨a1, a2⟩ := ua
+  cases a1 <;> cases a2 <;> simp [uaFn, UA.installed, withAcceptable, userFn1, userFn2]
+
+example : (([userFn1, userFn2].foldl withAcceptable none).map (· (some (Err.of (.body .userOk2))))) = some true := by
+  decide
 
 /-! ### every anchored entry point -/
 
